@@ -54,7 +54,12 @@ func (k Keeper) PlaceDutchAuctionBid(ctx sdk.Context, auctionID uint64, bidder s
 		if !totalCollateralTokenQuanitity.LTE(auctionData.CollateralToken.Amount) {
 			//This means that there is less collateral available .
 			leftOverCollateral := auctionData.CollateralToken.Amount
-			_, debtTokenAgainstLeftOverCollateral, _ := k.vault.GetAmountOfOtherToken(ctx, auctionData.CollateralAssetId, auctionData.CollateralTokenAuctionPrice, leftOverCollateral.Sub(collateralTokenQuanitityForBonus), auctionData.DebtAssetId, debtPrice)
+			// what is left after the bonus is paid for; nothing when the collateral left does not even cover the bonus
+			collateralToPayFor := leftOverCollateral.Sub(collateralTokenQuanitityForBonus)
+			if collateralToPayFor.IsNegative() {
+				collateralToPayFor = sdk.ZeroInt()
+			}
+			_, debtTokenAgainstLeftOverCollateral, _ := k.vault.GetAmountOfOtherToken(ctx, auctionData.CollateralAssetId, auctionData.CollateralTokenAuctionPrice, collateralToPayFor, auctionData.DebtAssetId, debtPrice)
 			bid.Amount = debtTokenAgainstLeftOverCollateral
 			totalCollateralTokenQuanitity = leftOverCollateral
 			//Amount to call from reserve account for adjusting the auction target debt
